@@ -12,6 +12,8 @@ const MIMEMultipartForm string = "multipart/form-data"
 // FormBinding is the form binder for form request body.
 type FormBinding struct {
 	EnableSplitting bool
+	// Immutable makes the binder copy keys and values out of the request buffers
+	Immutable bool
 }
 
 // Name returns the binding name.
@@ -36,6 +38,9 @@ func (b *FormBinding) Bind(req *fasthttp.Request, out any) error {
 
 		k := utils.UnsafeString(key)
 		v := utils.UnsafeString(val)
+		if b.Immutable {
+			k, v = string(key), string(val)
+		}
 		err = formatBindData(out, data, k, v, b.EnableSplitting, true)
 	})
 
@@ -75,4 +80,5 @@ func (b *FormBinding) bindMultipart(req *fasthttp.Request, out any) error {
 // Reset resets the FormBinding binder.
 func (b *FormBinding) Reset() {
 	b.EnableSplitting = false
+	b.Immutable = false
 }
